@@ -4,7 +4,7 @@
 * the *documented* conditional log densities of the Bernoulli / Laplace / Student-t / Beta likelihoods as scalar functions
 * adaptive integration of g(f) against N(m, v)  (scipy.integrate.quad, epsabs 1e-12)
 * log Phi (scipy.special.log_ndtr) and phi/Phi = sqrt(2/pi) / erfcx(-z/sqrt 2)   (well conditioned on the whole line,
-  unlike exp(logpdf - log_ndtr), which cancels catastrophically for z << 0; the two agree to 1e-13 on [-30, 10])
+  unlike exp(logpdf - log_ndtr), which cancels catastrophically for z << 0; the two agree to 2e-13 on [-30, 10]; both checked against 50-digit mpmath)
 """
 import math
 
